@@ -9,7 +9,7 @@ def cxx_int_ok(i):
     return -2147483648 <= i and i <= 2147483647
 
 
-contract(TR + "query_ast_visitor.visit_Constant", props=["C18", "C13", "C09"], replay="visit_constant_kinds",
+contract(TR + "query_ast_visitor.visit_Constant", props=["C18", "C13", "C09", "C01"], replay="visit_constant_kinds",
          params=dict(self=QV, node=RefOf("ast.Constant")),
          requires=["gc_of(self) != None"],
          modifies=["rep", "alloc"],
@@ -23,6 +23,6 @@ contract(TR + "query_ast_visitor.visit_Constant", props=["C18", "C13", "C09"], r
              ("int_representable@C18", "implies(field(node, 'value').kind == K_INT, cxx_int_ok(field(node, 'value').i))"),
              ("float@C18,C13", "implies(field(node, 'value').kind == K_FLOAT, plain_value(rep_of(node), float_text(field(node, 'value').f), 'double'))"),
              ("bool@C18,C13", "implies(field(node, 'value').kind == K_BOOL, plain_value(rep_of(node), 'true' if field(node, 'value').b else 'false', 'bool'))"),
-             ("scope", "field(rep_of(node), '_scope') != None and seq_eq(field(field(rep_of(node), '_scope'), '_scope_stack'), old(cursor(self)))"),
+             ("literal_valid_where_it_is_written", "field(rep_of(node), '_scope') != None and seq_eq(field(field(rep_of(node), '_scope'), '_scope_stack'), old(cursor(self)))"),
              ("frame", "frame('rep', node) and unchanged('_statements') and unchanged('_variables') and seq_eq(cursor(self), old(cursor(self)))"),
          ])
